@@ -21,6 +21,9 @@ def _load_obligations(pid):
 _PROG = None
 
 
+_ACTIVE = ()
+
+
 def _run_one(args):
     pid, idx, tier, seed, budget = args
     from .engine import explore
@@ -34,6 +37,7 @@ def _run_one(args):
         opts = dict(ob.opts)
         opts['seed'] = seed
         opts['tier'] = tier
+        opts['active_findings'] = _ACTIVE
         if budget:
             opts['deadline'] = time.time() + budget
         if tier == 'thorough':
@@ -84,6 +88,11 @@ def main(argv=None):
         print('no obligations registered for %s at tier %s' % (pid, tier))
         return 2
     budget = 0
+    # open known findings of this property: replay their witnesses against the current tree first
+    known = findings.load()
+    global _ACTIVE
+    act = findings.active_for(known, pid)
+    _ACTIVE = tuple(k for k, v in act.items() if v)
     jobs = [(pid, i, tier, seed, budget) for i in todo]
     results = {}
     if a.jobs > 1 and len(jobs) > 1:
@@ -97,7 +106,6 @@ def main(argv=None):
             results[idx] = out
 
     # ---- verdicts
-    known = findings.load()
     violations = []
     inconclusive = []
     known_printed = []
@@ -136,9 +144,15 @@ def main(argv=None):
                 inconclusive.append((ob.name, 'no replayer for %s' % label, rep.get('detail')))
     wall = time.time() - t0
     evidence.write(pid, tier, seed, mir_hash, [results[i] for i in todo], wall, len(violations), replays,
-                   [k for k, _ in known_printed])
+                   [k for k, _ in known_printed] + [k for k in known.get('open', []) if k['property'] == pid and k['id'] in _ACTIVE])
+    printed = set()
+    for k in known.get('open', []):
+        if k['property'] == pid and k['id'] in _ACTIVE:
+            print('KNOWN-FINDING: property=%s %s' % (pid, k['what']))
+            printed.add(k['id'])
     for kf, label in known_printed:
-        print('KNOWN-FINDING: property=%s %s' % (pid, kf['what']))
+        if kf['id'] not in printed:
+            print('KNOWN-FINDING: property=%s %s' % (pid, kf['what']))
     for name, v, why in inconclusive:
         print('INCONCLUSIVE property=%s obligation=%s %s %s' % (pid, name, v, (why or '')))
     for name, label, path in violations:
